@@ -60,7 +60,13 @@ func DepositValue(sender []byte, recipient string, amount, tip *big.Int) string 
 
 // HostileSpelling returns a different spelling of the same hex value (kind selects which).
 func HostileSpelling(v string, kind int) string {
-	switch kind % 6 {
+	switch kind % 9 {
+	case 6:
+		return "0x0x" + v // a second prefix survives one round of prefix stripping
+	case 7:
+		return "0X0x" + strings.ToUpper(v)
+	case 8:
+		return "0x0X" + v
 	case 0:
 		return "0x" + v
 	case 1:
